@@ -12,6 +12,7 @@ import (
 	"io"
 	"net"
 	"sort"
+	"strings"
 	"sync"
 	"time"
 
@@ -289,6 +290,13 @@ func (v *VerifL2) ShouldAnnounce(ip net.IP, ifname string) int {
 // before the announcer is used): with a small queue the hand-over between SetBalancer and the
 // consumer of the queue is exercised at every call, as it is in production whenever the queue is full.
 func (v *VerifL2) VerifSetSpamCapacity(n int) { v.A.spamCh = make(chan IPAdvertisement, n) }
+
+// VerifAdvText renders an advertisement (address, scope) for comparisons outside the package.
+func VerifAdvText(adv IPAdvertisement) (ip string, scope string) {
+	ifs := adv.interfaces.UnsortedList()
+	sort.Strings(ifs)
+	return adv.ip.String(), fmt.Sprintf("all=%v|%s", adv.allInterfaces, strings.Join(ifs, ","))
+}
 
 // SpamQueue exposes the receive side of the queue for a consumer that plays the spam loop.
 func (v *VerifL2) SpamQueue() <-chan IPAdvertisement { return v.A.spamCh }
